@@ -228,7 +228,7 @@ def handle (op : String) (args : List Sexp) : Option Ans :=
       let a := readWith cfg c total
       let b := readWith cfg' c total
       if isOk a && isOk b && (evsOf a).filter keep == (evsOf b).filter keep
-          && (match a, b with | .ok (n, _), .ok (n', _) => n == n' | _, _ => false)
+          && (match a, b with | .ok (n, _), .ok (n', _) => n == n' && n == c.size | _, _ => false)
       then pass else fail "decline")
   | "oracle-replay", [bytes, frame] => do
     let total ← byteLen bytes
